@@ -71,6 +71,24 @@ func shapes() []shape {
 		s.Parts = []bytex.PartSpec{P("text/plain", "", txt)}
 	})
 	add("no-date-set", func(s *bytex.MsgSpec) { s.Parts = []bytex.PartSpec{P("text/plain", "", txt)} })
+	// a producer that can be switched to fail (op "P" toggles it): a failed render through any path
+	// followed by successful ones; oracle only
+	out = append(out, shape{name: "flaky-producer", spec: func() bytex.MsgSpec {
+		s := base()
+		s.Parts = []bytex.PartSpec{P("text/plain", "", txt)}
+		s.Attach = []bytex.FileSpec{F("a.bin", "", "", bin)}
+		return s
+	}(), extra: func(m *mail.Msg, dir string) error {
+		att := m.GetAttachments()
+		orig := att[0].Writer
+		att[0].Writer = func(w io.Writer) (int64, error) {
+			if flakyFail {
+				return 0, fmt.Errorf("verif: source temporarily unavailable")
+			}
+			return orig(w)
+		}
+		return nil
+	}})
 	// file sources beyond in-memory producers: oracle only (stability of the real sources)
 	out = append(out, shape{name: "sources", spec: func() bytex.MsgSpec {
 		s := base()
@@ -94,6 +112,8 @@ func shapes() []shape {
 	}})
 	return out
 }
+
+var flakyFail bool
 
 type failWriter struct{ k int }
 
@@ -178,6 +198,9 @@ func renderOp(m *mail.Msg, op string, dir string, rd **mail.Reader) ([]byte, boo
 			return nil, true, fmt.Errorf("server committed %d messages", len(commits))
 		}
 		return commits[0].Data, true, nil
+	case 'P':
+		flakyFail = !flakyFail
+		return nil, false, nil
 	case 'K':
 		var k int
 		fmt.Sscanf(op[1:], "%d", &k)
@@ -213,6 +236,7 @@ func runCase(r *hx.Run, c hx.Case, sh []shape) {
 	}
 	defer os.RemoveAll(dir)
 	bytex.ResetRand()
+	flakyFail = false
 	m, err := s.spec.Build()
 	if err != nil {
 		r.Fail(c.ID, "harness-build", err.Error())
@@ -238,6 +262,12 @@ func runCase(r *hx.Run, c hx.Case, sh []shape) {
 		for i, op := range ops {
 			b, isRender, err := renderOp(m, op, dir, &rd)
 			if !isRender {
+				continue
+			}
+			if flakyFail {
+				if err == nil {
+					r.Fail(c.ID, "failed-render-not-reported-"+s.name, fmt.Sprintf("op %d (%s): producer failed but the render reported success", i, op))
+				}
 				continue
 			}
 			if err != nil {
@@ -323,6 +353,10 @@ func Run(r *hx.Run, replay []hx.Case) {
 		spec := mkSpec(s)
 		// fixed histories first: every single path twice, and a failed render followed by successful ones
 		fixed := [][]string{{"W", "W"}, {"W", "w", "R", "U", "F"}, {"W", "T", "S", "W"}, {"K50", "W", "W"}, {"K333", "W", "K700", "W"}, {"R", "U", "U"}, {"S", "W"}, {"W", "X", "W"}}
+		if s.name == "flaky-producer" {
+			fixed = append(fixed, []string{"W", "R", "P", "U", "P", "U", "W"}, []string{"P", "R", "P", "U", "W"}, []string{"W", "P", "W", "F", "T", "S", "P", "W", "R", "U"},
+				[]string{"R", "P", "U", "U", "P", "U", "U"})
+		}
 		for _, h := range fixed {
 			runCase(r, hx.Case{ID: r.NewID(), Kind: "history", Args: []string{fmt.Sprint(si), strings.Join(h, ","), spec}}, sh)
 		}
